@@ -96,6 +96,9 @@ def scenario(r, style):
         elif k < 0.72 and (m.pubs or m.subs):
             sd = r.choice([s for s in ("PUB", "SUB") if m.groups(s)])
             g = r.randrange(len(m.groups(sd)))
+            busy = [i for i in range(len(m.groups(sd))) if m.glive(sd, i) and m.group_has_eps(sd, i)]
+            if busy and r.random() < 0.5:
+                g = r.choice(busy)
             via = rp() if r.random() < 0.2 else None
             ok = m.delG(sd, g, via)
             if not ok or r.random() < 0.3:
@@ -105,6 +108,9 @@ def scenario(r, style):
                     probe(r, m, "W" if sd == "PUB" else "R", r.choice(kids))
         elif k < 0.80 and m.topics:
             t = r.randrange(len(m.topics))
+            used = [i for i, y in enumerate(m.topics) if y["live"] and m.name_in_use(y["p"], y["name"])]
+            if used and r.random() < 0.5:
+                t = r.choice(used)
             via = rp() if r.random() < 0.2 else None
             x = m.topics[t]
             ok = m.delT(t, via)
